@@ -60,6 +60,19 @@ func loadVerifier(repo, externDir string) (*Verifier, error) {
 	return v, nil
 }
 
+// enableNoPanic turns the no-panic sweep on for a function (zero annotations needed): every index, slice, nil
+// dereference, division and explicit panic becomes an obligation; pointer parameters are assumed non-nil.
+func (v *Verifier) enableNoPanic(key string) {
+	c := v.specs.Contracts[key]
+	if c == nil {
+		c = &Contract{Key: key, Loops: map[int]*LoopSpec{}, Flags: map[string]bool{}, Asserts: map[string][]Clause{}}
+		v.specs.Contracts[key] = c
+		c.Flags["sweep-only"] = true
+	}
+	c.Flags["nopanic"] = true
+	c.Flags["nonnil-params"] = true
+}
+
 // runFuncs verifies the listed functions (all split cases) and returns results.
 func (v *Verifier) runFuncs(keys []string) []*FuncResult {
 	var out []*FuncResult
@@ -158,6 +171,7 @@ func cmdVerify(args []string) {
 	timeout := fs.Int("timeout", 20, "per-obligation timeout (s)")
 	all := fs.Bool("all-solvers", false, "wait for all solvers and require agreement")
 	verbose := fs.Bool("v", false, "verbose")
+	sweep := fs.Bool("nopanic", false, "treat the named functions as a no-panic sweep (zero annotations)")
 	fs.StringVar(&onlySplit, "split", "", "only these split cases (comma separated labels)")
 	fs.Parse(args)
 	t0 := time.Now()
@@ -169,6 +183,11 @@ func cmdVerify(args []string) {
 	fmt.Printf("loaded in %.1fs\n", time.Since(t0).Seconds())
 	queryDir = *out
 	os.MkdirAll(queryDir, 0o755)
+	if *sweep {
+		for _, k := range fs.Args() {
+			v.enableNoPanic(k)
+		}
+	}
 	results := v.runFuncs(fs.Args())
 	var qs []*Query
 	for _, r := range results {
